@@ -108,6 +108,12 @@ type Peer struct {
 	seenSeq     map[uint16]bool // DTLS: message_seq values already digested (retransmitted flights are ignored)
 	lastSent    []byte
 	ccsSent     bool
+
+	// MutBody / MutFrame (optional) alter a handshake message just before it is framed / after it
+	// was framed (type and body; whole message including its header).  The transcript records what
+	// was actually sent.
+	MutBody  func(typ byte, body []byte) (byte, []byte)
+	MutFrame func(msg []byte) []byte
 }
 
 func (p *Peer) logKind(k string) { p.Kinds = append(p.Kinds, k) }
@@ -195,6 +201,17 @@ func (p *Peer) activateWrite() {
 // ---------------------------------------------------------------- handshake framing
 
 func (p *Peer) hsMsg(typ byte, body []byte) []byte {
+	if p.MutBody != nil {
+		typ, body = p.MutBody(typ, body)
+	}
+	m := p.hsFrame(typ, body)
+	if p.MutFrame != nil {
+		m = p.MutFrame(m)
+	}
+	return m
+}
+
+func (p *Peer) hsFrame(typ byte, body []byte) []byte {
 	n := len(body)
 	if p.DTLS {
 		h := []byte{typ, byte(n >> 16), byte(n >> 8), byte(n), byte(p.msgSeq >> 8), byte(p.msgSeq), 0, 0, 0, byte(n >> 16), byte(n >> 8), byte(n)}
@@ -502,7 +519,11 @@ func (p *Peer) serverProcessCKX(body []byte) {
 		if err != nil {
 			return
 		}
-		own, err := p.Enc.Key.(*sm2.PrivateKey).ECDH()
+		ownKey, ok := p.Enc.Key.(*sm2.PrivateKey)
+		if !ok {
+			return
+		}
+		own, err := ownKey.ECDH()
 		if err != nil {
 			return
 		}
